@@ -517,6 +517,7 @@ type Contract struct {
 	AssignTags []string
 	HasAssigns bool
 	MayPanic bool
+	PanicTags []string
 	IsLemma  bool
 	ParamTypes []string
 	GuardedCells [][2]string
@@ -550,7 +551,7 @@ type SpecFile struct {
 }
 
 var clauseKeywords = map[string]bool{
-	"func": true, "lemma": true, "requires": true, "assume": true, "ensures": true, "ghost": true, "on": true, "effect": true,
+	"func": true, "lemma": true, "nopanic": true, "requires": true, "assume": true, "ensures": true, "ghost": true, "on": true, "effect": true,
 	"loop": true, "assigns": true, "havoc": true, "may-panic": true, "pure": true, "spec": true,
 	"abstract": true, "guarded": true, "no-return": true, "ensures-by": true, "guarded-cell": true, "freevars": true, "trusted": true, "axiom": true,
 }
@@ -963,6 +964,13 @@ func parseSpecFile(path string) (*SpecFile, error) {
 					return nil, fail("bad guarded-cell clause")
 				}
 				cur.GuardedCells = append(cur.GuardedCells, [2]string{f[0], f[2]})
+			case "nopanic":
+				// nopanic [tags]: the properties under which this function's panic-freedom obligations are reported
+				tags, _ := parseTags(r.text)
+				cur.PanicTags = append(cur.PanicTags, tags...)
+				for _, t := range tags {
+					cur.Props[t] = true
+				}
 			case "may-panic":
 				cur.MayPanic = true
 			case "no-return":
